@@ -336,7 +336,7 @@ def run(repo='/repo', tier='quick'):
                             resets.append(y)
             res.check(not resets, 'C07.e', 'limit-counter:%s:loop-carried' % v['name'], '%s is initialised before the token loop and only incremented inside it' % v['name'],
                       'the counter %s that is compared with the layer limit is (re)initialised inside the token loop: it never exceeds the limit and every coding token gets its own decompressor' % v['name'], (resets[0].get('loc') if resets else cnd[0]['loc']))
-    res.floor('C07.e', 'limit counters in the token loop', ncnt, 2)
+    res.floor('C07.e', 'limit counters in the token loop', ncnt, 1)
     res.assumptions += ['zlib and the LZMA SDK write at most avail_out bytes into the output buffer', 'fidelity (decompressed bytes == payload) is not decided']
     return res
 
